@@ -3,6 +3,7 @@ import SJ.Drv.C01
 import SJ.Drv.C10
 import SJ.Drv.C12
 import SJ.Drv.C05
+import SJ.Drv.C03
 /-!
 `sjdriver` — reads case lines `op args… => impl-observation` on stdin, runs the Lean model and the
 executable specification on each, prints
@@ -19,6 +20,7 @@ def allHandlers : List (String × Handler) :=
     C10.handlers,
     C12.handlers,
     C05.handlers,
+    C03.handlers,
   ]
 
 def findHandler (op : String) : Option Handler := (allHandlers.find? (·.1 == op)).map (·.2)
